@@ -1,12 +1,14 @@
 import SupervisorModel.Lemmas.SupLemmas
 import SupervisorModel.Lemmas.AllFunc
+import SupervisorModel.Lemmas.Execv
 /-
   C13 — start/stop/signal RPC answers agree with what happened to the process.
   Per-process RPC layer (Model/ProcOps.lean: `_update` gate, state guards, spawn/stop/signal,
   answer) and the deferred answers of the daemon model (Model/Sup.lean: `onwait` callbacks polled by
   the loop).  Group/all forms: the closure of `make_allfunc` (Model/AllFunc.lean, lemmas in Lemmas/AllFunc.lean), for
   every process list, predicate, outcome of the single calls and schedule of callback completions -- second half of
-  this file.
+  this file.  The clause "NO_FILE or NOT_EXECUTABLE when it cannot exist or be executed": the command-file checks behind
+  startProcess and spawn() (Model/Execv.lean, lemmas in Lemmas/Execv.lean), for every stat / access answer -- last part.
 -/
 set_option linter.unusedSimpArgs false
 set_option linter.unusedVariables false
@@ -479,5 +481,107 @@ example : ∀ i, i < exEnv.n → exEnv.eligible i = true → exEnv.imm i = .defe
 -- nothing eligible: answered at once with the empty list
 example : (AllFunc.run (AllFunc.Env.ofList [{ group := "g", name := "a", eligible := false, imm := .value, polls := fun _ => .value }]) 1).2
     = some (.results []) := by decide
+
+/-! ## "NO_FILE or NOT_EXECUTABLE when it cannot exist or be executed"
+
+  `Sv.Execv.File` is what the system calls say about one candidate file: `st` the st_mode of stat() or `none` when stat()
+  failed, `acc` the answer of os.access(file, X_OK) for the user supervisord runs as.
+  `Executable f` (Lemmas/Execv.lean): `∃ m, f.st = some m ∧ sIsDir m = false ∧ hasExecBit m ∧ f.acc = true`, with
+  `hasExecBit m`: bit 6, 3 or 0 of the mode word (0o100, 0o010, 0o001) is set.
+  `Names cmd`: shlex made at least one word of the command (`explicit`: the program contains a '/'; `search`: $PATH lookup).
+  `resolved hasSlash files`: the file get_execv_args hands to check_execv_args.
+  `fileFault cmd files`: NO_FILE when the command names a program and stat found nothing, NOT_EXECUTABLE otherwise.
+-/
+section CommandFile
+open Sv.Execv Sv.Gen.Execv
+
+/-- **The model is the source as it is**: check_execv_args is one if/elif chain of raises (its tests and classes are the
+    generated `checkChain`), it asks os.access about the file it was given and about X_OK only; get_execv_args stats an
+    explicit program as it is and otherwise takes the first directory of the path in which stat succeeds, then calls
+    check_execv_args(filename, commandargs, st); startProcess makes the check after `_update` and the name lookup and before
+    every state test and its one spawn() call; spawn() makes it in a try whose handler returns before any fork. -/
+theorem execv_structure_facts :
+    checkIsRaiseChain = true ∧ checkAccessCalls = ["os.access(filename, os.X_OK)"] ∧
+    argsStructureOk = true ∧ startStructureOk = true ∧ spawnStructureOk = true := by decide
+
+/-- **check_execv_args answers `ok` only when an execute bit is set AND access(X_OK) holds** (and the file is there and is
+    not a directory) -- and always then. -/
+theorem check_accepts_iff_executable (f : File) : check f = none ↔ Executable f := check_none_iff f
+
+/-- what it raises otherwise: NotFound exactly when stat found nothing; NotExecutable for a directory or a file without any
+    execute bit; NoPermission for a file with an execute bit that supervisord's user may not execute -/
+theorem check_rejections (f : File) (c : String) (h : check f = some c) :
+    (c = "NotFound" ∧ f.st = none) ∨
+    (c = "NotExecutable" ∧ ∃ m, f.st = some m ∧ (sIsDir m = true ∨ ¬ hasExecBit m)) ∨
+    (c = "NoPermission" ∧ ∃ m, f.st = some m ∧ sIsDir m = false ∧ hasExecBit m ∧ f.acc = false) :=
+  check_some_cases f c h
+
+/-- **get_execv_args returns only for a command that names a program whose file can be executed** -/
+theorem lookup_accepts_iff_executable (cmd : Cmd) (files : List File) :
+    execvRaises cmd files = none ↔ Names cmd ∧ Executable (resolved (cmd == .explicit) files) :=
+  execvRaises_none_iff cmd files
+
+/-- which file that is: the explicit program itself; in a $PATH search the first candidate whose stat succeeds, whatever
+    comes after it (an executable file further down the path does not help); nothing when stat fails everywhere -/
+theorem lookup_file (f : File) (pre post : List File) (hpre : ∀ g ∈ pre, g.st = none) :
+    resolved true [f] = f ∧ (f.st.isSome = true → resolved false (pre ++ f :: post) = f) ∧ resolved false pre = nowhere :=
+  ⟨resolved_explicit f, resolved_search pre post f hpre, resolved_search_nowhere pre hpre⟩
+
+/-- **startProcess answers NO_FILE / NOT_EXECUTABLE for a command that cannot exist or be executed, and does nothing else**:
+    no state change, no event, no fork -- whatever the process state, `wait` and the fork answer would have been. -/
+theorem start_file_fault_exact (cfg : Cfg) (p : Proc) (now mood : Int) (cmd : Cmd) (files : List File) (res : SpawnRes)
+    (hm : ¬ mood < moodRUNNING) (hx : ¬ (Names cmd ∧ Executable (resolved (cmd == .explicit) files))) :
+    startProcess cfg now mood (execvRaises cmd files) res { p := p } =
+      { s := { p := p, outs := [.answer (fileFault cmd files)] } } :=
+  start_unexecutable cfg p now mood cmd files res hm hx
+
+/-- for a command that can be executed the call is the single call of the first part of this file
+    (`start_forks_only_if_eligible`, `start_true_sound` apply to it as they stand); no exception ever leaves it uncaught -/
+theorem start_executable_is_rpcStart (cfg : Cfg) (p : Proc) (now mood : Int) (cmd : Cmd) (files : List File) (res : SpawnRes)
+    (hx : Names cmd ∧ Executable (resolved (cmd == .explicit) files)) :
+    startProcess cfg now mood (execvRaises cmd files) res { p := p } = { s := rpcStart cfg now mood res { p := p } } :=
+  start_executable cfg p now mood cmd files res hx
+
+/-- **startProcess forks only for a command whose file exists, has an execute bit and may be executed by supervisord's
+    user** -/
+theorem start_forks_only_if_executable (cfg : Cfg) (p : Proc) (now mood : Int) (cmd : Cmd) (files : List File) (res : SpawnRes)
+    (hf : forks (startProcess cfg now mood (execvRaises cmd files) res { p := p }).s.outs ≠ []) :
+    Names cmd ∧ ∃ m, (resolved (cmd == .explicit) files).st = some m ∧ sIsDir m = false ∧ hasExecBit m ∧
+      (resolved (cmd == .explicit) files).acc = true :=
+  start_forks_only_executable cfg p now mood cmd files res hf
+
+/-- **nor does spawn() on its own** (autostart, autorestart, BACKOFF retry -- every spawn() is reached through
+    transition()): for a command that cannot be executed it is the spawn-error path (`badCmd`: spawnerr, BACKOFF), adds no
+    fork and leaves the held pid alone -/
+theorem spawn_forks_only_if_executable (cfg : Cfg) (now mood : Int) (cmd : Cmd) (files : List File) (res : SpawnRes) (kr : KillRes) (s : S)
+    (hx : ¬ (Names cmd ∧ Executable (resolved (cmd == .explicit) files))) :
+    let r := transitionChecked cfg now mood (execvRaises cmd files) res kr s
+    r.esc = none ∧ r.s = transition cfg now mood .badCmd kr s ∧ forks r.s.outs = forks s.outs ∧ r.s.p.pid = s.p.pid :=
+  transition_unexecutable_noFork cfg now mood cmd files res kr s hx
+
+theorem spawn_executable_is_transition (cfg : Cfg) (now mood : Int) (cmd : Cmd) (files : List File) (res : SpawnRes) (kr : KillRes) (s : S)
+    (hx : Names cmd ∧ Executable (resolved (cmd == .explicit) files)) :
+    transitionChecked cfg now mood (execvRaises cmd files) res kr s = { s := transition cfg now mood res kr s } :=
+  transition_executable cfg now mood cmd files res kr s hx
+
+-- non-vacuity and the constants: 0o100755 regular rwxr-xr-x, 0o040755 a directory, 0o100644 no execute bit,
+-- 0o100074 / 0o100750: an execute bit, but (for a user who is the owner of the first / a stranger to the second) not theirs
+example : sIsDir 0o040755 = true ∧ sIsDir 0o100755 = false ∧ sIsDir 0o010755 = false := by decide
+example : hasExecBit 0o100755 ∧ hasExecBit 0o100074 ∧ hasExecBit 0o100001 ∧ ¬ hasExecBit 0o100644 ∧ ¬ hasExecBit 0o106666 := by
+  simp [hasExecBit]; decide
+example : Executable { st := some 0o100755, acc := true } := ⟨_, rfl, by decide, by simp [hasExecBit], rfl⟩
+example : check { st := some 0o100755, acc := true } = none ∧ check { st := some 0o100074, acc := false } = some "NoPermission"
+    ∧ check { st := some 0o100750, acc := false } = some "NoPermission" ∧ check { st := some 0o100644, acc := true } = some "NotExecutable"
+    ∧ check { st := some 0o040755, acc := true } = some "NotExecutable" ∧ check { st := none, acc := false } = some "NotFound" := by decide
+example : fileFault .search [{ st := none, acc := false }] = faultNO_FILE ∧ fileFault .explicit [{ st := some 0o100074, acc := false }] = faultNOT_EXECUTABLE
+    ∧ fileFault .empty [] = faultNOT_EXECUTABLE ∧ fileFault .search [{ st := none, acc := false }, { st := some 0o100644, acc := true }, { st := some 0o100755, acc := true }] = faultNOT_EXECUTABLE := by decide
+-- a start of a STOPPED process whose command file has an execute bit that is not supervisord's user's: NOT_EXECUTABLE, nothing else
+example : (startProcess ⟨1024, 3, true, .unexpected, [0], 15, 10240, false, false⟩ 5000 1
+            (execvRaises .explicit [{ st := some 0o100074, acc := false }]) (.ok 101) { p := {} }).s.outs = [.answer faultNOT_EXECUTABLE] := by decide
+-- and of the same process once the file is executable: one fork
+example : forks (startProcess ⟨1024, 3, true, .unexpected, [0], 15, 10240, false, false⟩ 5000 1
+            (execvRaises .explicit [{ st := some 0o100755, acc := true }]) (.ok 101) { p := {} }).s.outs = [.fork 101] := by decide
+
+end CommandFile
 
 end Sv.Props.C13
